@@ -28,6 +28,10 @@ m $U long_to_float_as_word 's/op = src->size == 8 ? ISLTOF : ISWTOF;/op = src->s
 m $U ext_trunc_swapped 's/op = src->size < dst->size ? IEXTS : ITRUNCD;/op = src->size > dst->size ? IEXTS : ITRUNCD;/'
 m $U float_class_swapped "s/class = dst->size == 8 ? 'd' : 's';/class = dst->size == 8 ? 's' : 'd';/"
 m $U uint_to_float_signed 's/op = src->size == 8 ? IULTOF : IUWTOF;/op = src->size == 8 ? IULTOF : ISWTOF;/'
+# the two defects this unit found on the pinned snapshot (repaired by bc7214a, 6ae6305)
+m $U revert_fix_bc7214a_short_to_float_not_extended 's/case 2: l = funcinst(f, src->u.basic.issigned ? IEXTSH : IEXTUH, .w., l, NULL); break;/case 2: break;/'
+m $U revert_fix_6ae6305_ldouble_accepted 's/if (src->size == 16 || dst->size == 16)/if (0)/'
+m $U char_to_float_zero_extended 's/case 1: l = funcinst(f, src->u.basic.issigned ? IEXTSB : IEXTUB, .w., l, NULL); break;/case 1: l = funcinst(f, IEXTUB, \x27w\x27, l, NULL); break;/'
 
 U=QBE.funcjnz
 m $U short_not_widened 's/if (t->prop \& PROPINT \&\& t->size < 4)/if (t->prop \& PROPINT \&\& t->size < 2)/'
@@ -51,7 +55,7 @@ m $U revert_fix_3ee136c_top_field_value 's/if (bits || b.before)$/if (bits)/'
 U=QBE.bitfield.load
 m $U extract_sign_swapped 's/v = funcinst(f, t->u.basic.issigned ? ISAR : ISHR, class, v, mkintconst(bits));/v = funcinst(f, t->u.basic.issigned ? ISHR : ISAR, class, v, mkintconst(bits));/'
 m $U right_shift_by_after 's/bits += b.before;/bits += b.after;/'
-m $U signed_byte_load_swapped 's/case 1: return t->u.basic.issigned ? sb : ub;/case 1: return t->u.basic.issigned ? ub : sb;/'
+m $U short_loaded_as_word "s/sh = {'w', 'h', ILOADSH, ISTOREH}/sh = {'w', 'h', ILOADW, ISTOREH}/"
 m $U float_loaded_as_double "s/s = {'s', 's', ILOADS, ISTORES}/s = {'s', 's', ILOADD, ISTORES}/"
 m $U int_field_in_l_class "/^funcbits/,/^}/ s/class = t->size <= 4 ? 'w' : 'l';/class = t->size < 4 ? 'w' : 'l';/"
 
@@ -67,4 +71,8 @@ m $U revert_fix_a1ac6ed_nullptr_const 's/if (t->prop \& PROPINT || t->kind == TY
 m $U float_const_kind_swapped 's/return mkfltconst(t->size == 4 ? VALUE_FLTCONST : VALUE_DBLCONST, e->u.constant.f);/return mkfltconst(t->size == 4 ? VALUE_DBLCONST : VALUE_FLTCONST, e->u.constant.f);/'
 m $U pointer_const_as_float 's/if (t->prop \& PROPINT || t->kind == TYPEPOINTER || t->kind == TYPENULLPTR)/if (t->prop \& PROPINT || t->kind == TYPENULLPTR)/'
 
-if [ -f units/qbe_lower/mkmutants_more.sh ]; then . units/qbe_lower/mkmutants_more.sh; fi
+
+U=QBE.unary.neg
+m $U neg_class_from_operand_size_wrong 's/return funcinst(f, INEG, qbetype(e->type).base, r, NULL);/return funcinst(f, INEG, ptrclass, r, NULL);/'
+m $U neg_emits_sub_from_itself 's/return funcinst(f, INEG, qbetype(e->type).base, r, NULL);/return funcinst(f, ISUB, qbetype(e->type).base, r, r);/'
+m $U neg_operand_evaluated_twice '/case TSUB:/,/return funcinst(f, INEG/ s/r = funcexpr(f, e->base);/funcexpr(f, e->base); r = funcexpr(f, e->base);/'
